@@ -980,7 +980,7 @@ class Gen:
         if r < 0.35:
             return
         if r < 0.50:
-            it.export_to = self.r.choice([f"{px}dir/", f"{px}a/b/", "common/", f"../{px}esc/", f"{px}x/../{px}y/"])
+            it.export_to = self.r.choice([f"{px}dir/", f"{px}a/b/", "common/", f"../{px}esc/", f"{px}x/../{px}y/", f"../../{px}up2/", f"../{px}a/../../{px}up3/"])
         elif r < 0.62:
             it.export_to = self.r.choice([f"{px}files/{it.name}_f.ts", f"{px}{it.name}.custom.ts", f"n1/n2/{px}{it.name}.ts",
                                           f"../{px}out/{it.name}.ts", f"{px}q/{it.name}.d.ts"])
